@@ -343,9 +343,28 @@ class LaunchReactor(object):
         raise NotImplementedError
 
 
-def _tempdir(user_dir, exit_kind, fire_shutdown):
+class _OsProxy(object):
+    """the os module as txtorcon.controller sees it, with mkdir replaced (no real directory is created)"""
+
+    def __init__(self, real, mkdir_ok):
+        self._real = real
+        self._mkdir_ok = mkdir_ok
+        self.mkdirs = []
+
+    def mkdir(self, path, mode=0o777):
+        self.mkdirs.append(path)
+        if not self._mkdir_ok:
+            raise OSError(17, 'File exists')
+
+    def __getattr__(self, k):
+        return getattr(self._real, k)
+
+
+def _tempdir(user_dir, exit_kind, fire_shutdown, mkdir_ok=False):
+    import os as _os
     deleted = []
     made = []
+    controller.os = _OsProxy(_os, mkdir_ok)
     controller.delete_file_or_tree = lambda *paths: deleted.extend(paths)
     controller.tempfile = type('T', (), {'mkdtemp': staticmethod(lambda prefix='': made.append('/nonexistent/%s-made' % prefix) or made[-1])})
     controller.available_tcp_port = lambda reactor: defer.succeed(9999)
@@ -378,13 +397,16 @@ def _tempdir(user_dir, exit_kind, fire_shutdown):
             return R('launch-result-fired-twice')
     except Exception as e:
         return R('exception', '%s: %s', type(e).__name__, e)
+    finally:
+        controller.os = _os
     reached()
     return ''
 
 
 @cond(quick=dict(budget=60))
-def c19_tempdir(user_dir: bool, exit_kind: int, fire_shutdown: bool) -> str:
-    """real launch() with doubles for the reactor and the file system: temp dir removed at process end, caller's never"""
+def c19_tempdir(user_dir: bool, exit_kind: int, fire_shutdown: bool, mkdir_ok: bool) -> str:
+    """real launch() with doubles for the reactor and the file system: temp dir removed at process end, caller's never
+    (whether or not the caller's directory existed before: mkdir_ok = launch() could create it)"""
     exit_kind = api.pick(exit_kind, 0, 1)
     with api.no_tracing():
-        return _tempdir(True if user_dir else False, exit_kind, True if fire_shutdown else False)
+        return _tempdir(True if user_dir else False, exit_kind, True if fire_shutdown else False, True if mkdir_ok else False)
